@@ -109,3 +109,4 @@ pub open spec fn wf_pwb(p: PwbV2Packet) -> bool {
     &&& p.data@.len() == p.channels_sent@.len() * spc(p) + 2
     &&& forall|i: int, j: int| 0 <= i < j < p.channels_sent@.len() ==> p.channels_sent@[i] != p.channels_sent@[j]
 }
+
